@@ -26,11 +26,11 @@ Print Assumptions C02_sound_labels_partial.
    every program the model (= the current code, strict_range = true) assembles, the statement addresses are defined,
    labels have the address of the next statement, each op's two words hold its expressions' values, reserved ranges
    are inside a segment and read zero, segments are loadable (pairwise disjoint, word-pair aligned, in range).
-   Guards: F17 (lexical_labels), F18 (reserves_nonneg). *)
+   lexical_labels (no label is spelled `:wflips:...`) is a property of parser output, see C02_sound below. *)
 Theorem C02_sound_static_partial :
   forall ww ver P segs words lbls,
     assemble_model ww ver true P = Ok (segs, words, lbls) ->
-    lexical_labels P = true -> reserves_nonneg ww P lbls = true ->
+    lexical_labels P = true ->
     exists L, place ww (lookup lbls) P 0 = Some L
               /\ loadable_segs ww segs = true
               /\ Forall (stmt_ok_static ww (image_of segs words) L lbls) L.
@@ -68,7 +68,7 @@ Print Assumptions C02_wflip_exec.
 Theorem C02_sound_modulo_chains_partial :
   forall ww ver P segs words lbls,
     assemble_model ww ver true P = Ok (segs, words, lbls) ->
-    lexical_labels P = true -> reserves_nonneg ww P lbls = true ->
+    lexical_labels P = true ->
     (forall L, place ww (lookup lbls) P 0 = Some L -> Forall (wflip_chain_ok ww (image_of segs words) L lbls) L) ->
     Denotes ww (image_of segs words) P lbls.
 Proof. exact assemble_sound_modulo_chains. Qed.
@@ -91,17 +91,22 @@ Print Assumptions C02_aux_not_on_io_partial.
 Theorem C02_wflip_chain_invariant :
   forall ww ver P segs words lbls,
     assemble_model ww ver true P = Ok (segs, words, lbls) ->
-    lexical_labels P = true -> reserves_nonneg ww P lbls = true ->
+    lexical_labels P = true ->
     forall L, place ww (lookup lbls) P 0 = Some L -> Forall (wflip_chain_ok ww (image_of segs words) L lbls) L.
 Proof. exact assemble_chains. Qed.
 Print Assumptions C02_wflip_chain_invariant.
 
 (* THE theorem: for every macro-free program the model of the current assembler (strict_range = true) assembles, the
-   image is the program's denotation.  Guards = the recorded findings F17 (lexical_labels), F18 (reserves_nonneg). *)
+   image is the program's denotation.  No defect guard is left (F17 and F18 are fixed in /repo and in the model, see
+   C02_F17_rejected / C02_F18_rejected).  The one hypothesis, lexical_labels P = "no label statement is spelled
+   `:wflips:...`", is a property of parser output: identifiers are [a-zA-Z_][a-zA-Z_0-9]* joined by dots
+   (fj_parser.py id_re / dot_id_re) and never contain `:`; the assembler generates the names `:wflips:<k>` for its
+   auxiliary ops and assigns them without a duplicate check (BinaryData._insert_wflip_label), which is harmless exactly
+   because no source label can have such a name. *)
 Theorem C02_sound :
   forall ww ver P segs words lbls,
     assemble_model ww ver true P = Ok (segs, words, lbls) ->
-    lexical_labels P = true -> reserves_nonneg ww P lbls = true ->
+    lexical_labels P = true ->
     Denotes ww (image_of segs words) P lbls.
 Proof. exact assemble_sound. Qed.
 Print Assumptions C02_sound.
@@ -154,7 +159,7 @@ Proof.
   apply check_denotes_sound. vm_compute. reflexivity.
 Qed.
 
-(* 4. the recorded defects: without the guard the model (= the code as it is) produces an image that is not the denotation *)
+(* 4. the recorded defects and their fixes *)
 Definition witness (ww ver : N) (P : list stmt) : Prop :=
   exists segs words lbls,
     assemble_model ww ver true P = Ok (segs, words, lbls)
@@ -177,20 +182,26 @@ Proof.
   apply check_denotes_sound. vm_compute. reflexivity.
 Qed.
 
-(* F17: the label `_.wflip_area_start_0` is overwritten by the first `segment` *)
+(* F17 (fixed in /repo by 07c8d15): a source label `_.wflip_area_start_0` was overwritten by the first `segment`; it is
+   now the 'label declared twice' error, whether the label comes before the segment or after it *)
 Definition prog_F17 : list stmt :=
   [SLabel "_.wflip_area_start_0" ps; SFlipJump (EInt 0) (ELbl "_.wflip_area_start_0") ps;
    SFlipJump (EInt 0) (ELbl "_.wflip_area_start_0") ps; SSegment (EInt 256) ps; SFlipJump (EInt 0) (ELbl "$") ps].
-Example C02_sound_refuted_F17 : witness 4 0 prog_F17 /\ lexical_labels prog_F17 = false.
-Proof. split; [|reflexivity]. eexists. eexists. eexists. split; vm_compute; reflexivity. Qed.
+Example C02_F17_rejected : assemble_model 4 0 true prog_F17 = LibError KLabelTwice /\ lexical_labels prog_F17 = true.
+Proof. split; vm_compute; reflexivity. Qed.
+Definition prog_F17_after : list stmt :=
+  [SFlipJump (EInt 0) (EInt 0) ps; SSegment (EInt 256) ps; SLabel "_.wflip_area_start_0" ps; SFlipJump (EInt 0) (ELbl "$") ps].
+Example C02_F17_after_rejected : assemble_model 4 0 true prog_F17_after = LibError KLabelTwice.
+Proof. vm_compute. reflexivity. Qed.
 
-(* F18: a negative reserve back to the start of the piece keeps the earlier ops in the image *)
+(* F18 (fixed in /repo by 825c6f7): a negative reserve back to the start of the piece kept the earlier ops in the image;
+   every negative reserve is now rejected where its size is evaluated *)
 Definition prog_F18 : list stmt :=
   [SFlipJump (EInt 0) (ELbl "s") ps; SSegment (EInt 1024) ps; SLabel "s" ps; SFlipJump (EInt 0) (ELbl "$") ps;
    SFlipJump (EInt 0) (ELbl "$") ps; SReserve (EInt (-64)) ps; SLabel "x" ps; SFlipJump (EInt 0) (ELbl "x") ps;
    SReserve (EInt 128) ps].
-Example C02_sound_refuted_F18 : witness 4 1 prog_F18.
-Proof. eexists. eexists. eexists. split; vm_compute; reflexivity. Qed.
+Example C02_F18_rejected : assemble_model 4 1 true prog_F18 = LibError KReserveNegative.
+Proof. vm_compute. reflexivity. Qed.
 
 (* F8 (fixed in /repo by b770ddf): an op word that does not fit [0, 2^w) is rejected; before the fix (strict_range =
    false) fjm versions 2/3 wrapped the jump word: kept as the regression witness the campaign signature refers to *)
